@@ -73,12 +73,16 @@ package combinator
 //@   ghost_at call#3 parsley.GhostCpAcc = lastres[data.IntSet](0)
 //@   ensures  [cp-all;C01] same(cp, parsley.GhostCpAcc)
 //@   assert_at call#4 [E4-merged;C01] same(lastarg[parsley.Node](1), parsley.GhostLastNode)
+//@   ghost_at call#2 when lastres[parsley.Error](2) != nil && (lastres[parsley.Error](2).Pos() > pos || !parsley.IsNotFound(lastres[parsley.Error](2))) && lastres[parsley.Error](2).Pos() > parsley.GhostBest :: parsley.GhostBest = lastres[parsley.Error](2).Pos()
+//@   assert_at call#9 [L-success;C06] parsley.GhostBest >= 0 ==> lastarg[parsley.Error](1) != nil && lastarg[parsley.Error](1).Pos() >= parsley.GhostBest
+//@   ensures  [L-failure;C06] n == nil && parsley.GhostBestOut >= 0 ==> err != nil && err.Pos() >= parsley.GhostBestOut
 //@ loop 1 (k rangeindex, cp data.IntSet, res parsley.Node, err parsley.Error, notFoundErr parsley.Error)
 //@   invariant 0 <= k && k <= len(parsers)
 //@   invariant parsley.WfCtx(ctx) && parsley.WfCache(ctx) && parsley.InInput(ctx.Reader(), pos) && ghostIn(ctx, lrc, pos)
 //@   invariant data.Inv(cp) && errOK(ctx, err, pos) && errOK(ctx, notFoundErr, pos) && resOK(ctx, res, pos)
 //@   invariant [PC1] k >= 1 && res == nil && err == nil && notFoundErr == nil ==> parsley.GhostCurtailed
 //@   invariant [cp-all;C01] k >= 1 ==> same(cp, parsley.GhostCpAcc)
+//@   invariant [L;C06] (err == nil ==> parsley.GhostBest == -1) && (err != nil ==> err.Pos() >= parsley.GhostBest)
 
 //@ -- the same result, possibly as a list re-sliced to cut off its spare capacity
 //@ pure func sameAlts(a parsley.Node, b parsley.Node) bool = same(a, b) || (a != nil && b != nil && typeis[ast.NodeList](a) && typeis[ast.NodeList](b) && parsley.ListArr(a) == parsley.ListArr(b) && parsley.NAlts(a) == parsley.NAlts(b) && parsley.ListSpare(a) == 0)
@@ -130,7 +134,9 @@ package combinator
 //@ pure func seqOK(s *sequence, ctx *parsley.Context) bool = s != nil && s.parserLookUp != nil && s.lenCheck != nil && s.resultHandler != nil && data.Inv(s.curtailingParsers) && (s.result != nil ==> parsley.NodeOK(s.result) && (parsley.ListArr(s.result) != 0 ==> parsley.GhostSpare(parsley.ListArr(s.result)) && parsley.ListArr(s.result) >= parsley.GhostSeqMark && allocatedid(parsley.ListArr(s.result))) && parsley.EndsWithin(s.result, parsley.GhostLo, parsley.GhostHi)) && (s.err != nil ==> parsley.GhostLo <= s.err.Pos() && s.err.Pos() <= parsley.GhostHi && s.err.Pos() <= parsley.GhostMaxFail) && (forall k int :: 0 <= k && k < len(s.nodes) ==> validSeqNode(s.nodes[k])) && (cap(s.nodes) == 0 || (array(s.nodes) >= parsley.GhostSeqMark && parsley.GhostSpare(array(s.nodes)))) && offset(s.nodes) == 0 && 0 <= len(s.nodes) && len(s.nodes) <= cap(s.nodes) && (array(s.nodes) == 0 ==> cap(s.nodes) == 0) && allocatedid(array(s.nodes)) && (cap(s.nodes) == 0 || s.result == nil || parsley.ListArr(s.result) != array(s.nodes))
 //@ -- the first index without a parser is an acceptable length (otherwise a run could end with neither result nor error)
 //@ pure func seqShape(s *sequence) bool = forall d int :: d >= 0 && lookupOf(s.parserLookUp, d) == nil && (d == 0 || lookupOf(s.parserLookUp, d-1) != nil) ==> lenOf(s.lenCheck, d)
-//@ pure func seqGhost(ctx *parsley.Context) bool = (old(parsley.GhostCurtailed) ==> parsley.GhostCurtailed) && parsley.GhostMaxFail >= old(parsley.GhostMaxFail) && parsley.GhostCalls >= old(parsley.GhostCalls) && parsley.GhostFloorPos == old(parsley.GhostFloorPos) && same(parsley.GhostFloorLrc, old(parsley.GhostFloorLrc)) && parsley.GhostLo == old(parsley.GhostLo) && parsley.GhostHi == old(parsley.GhostHi) && parsley.GhostSeqMark == old(parsley.GhostSeqMark) && (forall a int :: a < parsley.GhostSeqMark ==> parsley.GhostSpare(a) == old(parsley.GhostSpare(a)))
+//@ pure func seqGhost(ctx *parsley.Context) bool = (old(parsley.GhostCurtailed) ==> parsley.GhostCurtailed) && parsley.GhostMaxFail >= old(parsley.GhostMaxFail) && parsley.GhostCalls >= old(parsley.GhostCalls) && parsley.GhostFloorPos == old(parsley.GhostFloorPos) && same(parsley.GhostFloorLrc, old(parsley.GhostFloorLrc)) && parsley.GhostLo == old(parsley.GhostLo) && parsley.GhostHi == old(parsley.GhostHi) && parsley.GhostSeqMark == old(parsley.GhostSeqMark) && (forall a int :: a < parsley.GhostSeqMark ==> parsley.GhostSpare(a) == old(parsley.GhostSpare(a))) && parsley.GhostBest >= old(parsley.GhostBest)
+//@ -- the sequence keeps the furthest error its elements have returned (C06)
+//@ pure func seqErrOK(s *sequence) bool = (s.err == nil ==> parsley.GhostBest == -1) && (s.err != nil ==> s.err.Pos() >= parsley.GhostBest)
 
 //@ -- everything except the run's own two arrays (the scratch slice of nodes and the result list) keeps its alternatives
 //@ pure func seqFrame(s *sequence) bool = forall x parsley.Node, k int :: parsley.ListArr(x) == 0 || (!freshid(parsley.ListArr(x)) && (old(cap(s.nodes)) == 0 || parsley.ListArr(x) != old(array(s.nodes))) && (old(s.result) == nil || parsley.ListArr(x) != old(parsley.ListArr(s.result)))) ==> same(parsley.Alt(x, k), old(parsley.Alt(x, k)))
@@ -143,6 +149,9 @@ package combinator
 //@   ensures  seqOK(s, ctx) && len(s.nodes) >= old(len(s.nodes)) && parsley.WfCtx(ctx) && parsley.WfCache(ctx) && seqGhost(ctx)
 //@   ensures  [fixed] same(s.parserLookUp, old(s.parserLookUp)) && same(s.lenCheck, old(s.lenCheck)) && same(s.resultHandler, old(s.resultHandler)) && s.token == old(s.token) && same(s.interpreter, old(s.interpreter))
 //@   assert_at entry [sep] cap(s.nodes) == 0 || s.result == nil || !typeis[ast.NodeList](s.result) || array(s.result.(ast.NodeList)) != array(s.nodes)
+//@   requires [L;C06] seqErrOK(s)
+//@   ensures  [L;C06] seqErrOK(s)
+//@   ghost_at call#3 when lastres[parsley.Error](2) != nil && lastres[parsley.Error](2).Pos() > parsley.GhostBest :: parsley.GhostBest = lastres[parsley.Error](2).Pos()
 //@   ensures  [pc1;C04] s.result != nil || s.err != nil || parsley.GhostCurtailed
 //@   ensures  [nodes-arr;C07] (array(s.nodes) == old(array(s.nodes)) && cap(s.nodes) == old(cap(s.nodes))) || fresh(s.nodes)
 //@   ensures  [result-arr;C07] s.result == nil || parsley.ListArr(s.result) == 0 || freshid(parsley.ListArr(s.result)) || (old(s.result) != nil && parsley.ListArr(s.result) == old(parsley.ListArr(s.result)) && parsley.NAlts(s.result) >= old(parsley.NAlts(s.result)) && parsley.NAlts(s.result) + parsley.ListSpare(s.result) == old(parsley.NAlts(s.result) + parsley.ListSpare(s.result)))
@@ -156,6 +165,7 @@ package combinator
 //@   invariant [hint-alts] forall j int :: 0 <= j && j < len(rest) ==> same(parsley.Alt(parsley.Node(rest), j), rest[j])
 //@   invariant seqOK(s, ctx) && len(s.nodes) >= old(len(s.nodes)) && depth <= len(s.nodes) && parsley.WfCtx(ctx) && parsley.WfCache(ctx) && seqGhost(ctx)
 //@   invariant same(s.parserLookUp, old(s.parserLookUp)) && same(s.lenCheck, old(s.lenCheck)) && same(s.resultHandler, old(s.resultHandler)) && s.token == old(s.token) && same(s.interpreter, old(s.interpreter))
+//@   invariant [L;C06] seqErrOK(s)
 //@   invariant [rest] forall j int :: k <= j && j < len(rest) ==> validSeqNode(rest[j]) && pos <= rest[j].ReaderPos()
 //@   invariant [alt-frame] seqFrame(s)
 //@   invariant [nodes-arr] (array(s.nodes) == old(array(s.nodes)) && cap(s.nodes) == old(cap(s.nodes))) || fresh(s.nodes)
@@ -176,6 +186,8 @@ package combinator
 //@   ensures  [next;C01,C02] ncalls() == 1 && callarg[int](1, 1) == depth+1 && callarg[*parsley.Context](1, 2) == ctx && callarg[parsley.Pos](1, 4) == node.ReaderPos()
 //@   ensures  [next-same-pos;C01,C02] node.ReaderPos() <= pos ==> same(callarg[data.IntMap](1, 3), lrc) && callarg[bool](1, 5) == merge
 //@   ensures  [next-consumed;C01,C02] node.ReaderPos() > pos ==> !callarg[bool](1, 5) && forall k int :: !dom(data.MapOf(callarg[data.IntMap](1, 3)), k)
+//@   requires [L;C06] seqErrOK(s)
+//@   ensures  [L;C06] seqErrOK(s)
 //@   ensures  [pc1;C04] s.result != nil || s.err != nil || parsley.GhostCurtailed
 //@   ensures  [nodes-arr;C07] (array(s.nodes) == old(array(s.nodes)) && cap(s.nodes) == old(cap(s.nodes))) || fresh(s.nodes)
 //@   ensures  [result-arr;C07] s.result == nil || parsley.ListArr(s.result) == 0 || freshid(parsley.ListArr(s.result)) || (old(s.result) != nil && parsley.ListArr(s.result) == old(parsley.ListArr(s.result)) && parsley.NAlts(s.result) >= old(parsley.NAlts(s.result)) && parsley.NAlts(s.result) + parsley.ListSpare(s.result) == old(parsley.NAlts(s.result) + parsley.ListSpare(s.result)))
@@ -193,6 +205,9 @@ package combinator
 //@   ensures  [PC1;C04] n == nil && err == nil ==> parsley.GhostCurtailed
 //@   ensures  [PC2;C07] n != nil ==> parsley.NodeOK(n) && (parsley.ListArr(n) != 0 ==> parsley.GhostSpare(parsley.ListArr(n)) && parsley.ListArr(n) >= parsley.GhostSeqMark && allocatedid(parsley.ListArr(n))) && parsley.EndsWithin(n, pos, eof(ctx, pos))
 //@   ensures  [PC3e;C06] err != nil ==> pos <= err.Pos() && err.Pos() <= eof(ctx, pos) && err.Pos() <= parsley.GhostMaxFail
+//@   requires [L;C06] parsley.GhostBest == -1
+//@   ensures  [L-failure;C06] n == nil && parsley.GhostBest >= 0 ==> err != nil && err.Pos() >= parsley.GhostBest
+//@   ensures  [L-success;C06] n != nil && parsley.GhostBest >= 0 ==> ctx.Error() != nil && ctx.Error().Pos() >= parsley.GhostBest
 //@   ensures  [cp] data.Inv(cp)
 //@   ensures  [one] n != nil ==> err == nil
 //@   assigns  s.curtailingParsers, s.result, s.err, s.nodes, cells(s.nodes)
@@ -206,6 +221,7 @@ package combinator
 //@ func (s *Sequence) Parse(ctx *parsley.Context, lrc data.IntMap, pos parsley.Pos) (n parsley.Node, cp data.IntSet, err parsley.Error)
 //@   requires s != nil
 //@   include  parsley.Parser.Parse
+//@   ensures  [L-failure;C06] n == nil && parsley.GhostBestOut >= 0 ==> err != nil && err.Pos() >= parsley.GhostBestOut
 //@   ghost_entry parsley.GhostSeqMark = allocmark()
 //@   ghost_return parsley.GhostSeqMark = old(parsley.GhostSeqMark)
 //@   ghost_return when err != nil && err.Pos() > parsley.GhostMaxFail :: parsley.GhostMaxFail = err.Pos()
